@@ -792,3 +792,32 @@ def empty_subset_replaced(rep, prog, entries, rule="EMPTY.subset"):
                     "`%s`: an empty %s is falsy and is replaced by the default as well - %s(%s=empty) no longer answers for the empty set" % (fmt(hit[1])[:60], p_, f.name, p_))
         else:
             rep.ok(rule, fwhere(f), "the node set %s of %s is never replaced by a default when it is empty" % (p_, f.name))
+
+
+def ctor_copies(rep, prog, ctor_qname, attrs=None, rule="CTOR.copy"):
+    """what the constructor stores in self.<attr> is the object's own: not the caller's array (a later change of the caller's
+    array would change the model), not an object a memoising helper hands to everybody (ownership analysis of the constructor)"""
+    from .. import own as OW
+    f = need(prog, ctor_qname)
+    O = OW.Own(prog)
+    try:
+        OW.analyse_entry(O, f)
+    except Inconclusive as e:
+        rep.unk(rule, fwhere(f), "ownership analysis left the modelled fragment: %s" % e.why)
+        return
+    seen = 0
+    for (q, target, attr, val, rel, func) in O.rebinds:
+        if func is None or func.qname != f.qname or (attrs is not None and attr not in attrs):
+            continue
+        seen += 1
+        w = {"file": rel, "line": target.lineno, "function": q, "construct": norm(target)}
+        deep = OW.deep_labels(val)
+        owned = sorted({l for l in deep if isinstance(l, tuple) and OW.strip_maybe(l)[0] in ("P", "PE", "D", "G")}, key=str)
+        if owned:
+            kind = {"P": "the caller's", "PE": "an element of the caller's", "D": "the default value of", "G": "the shared module-level object"}
+            rep.bad(rule, w, "self.%s %s %s" % (attr, "may keep a reference to" if all(l[0].endswith("?") for l in owned) else "keeps a reference to",
+                                                  ", ".join("%s `%s`" % (kind[OW.strip_maybe(l)[0]], l[1]) for l in owned)))
+        else:
+            rep.ok(rule, w, "self.%s is the object's own value" % attr)
+    if not seen:
+        rep.unk(rule, fwhere(f), "no store into self.%s found in %s" % ("/".join(attrs) if attrs else "*", f.name))
